@@ -9,7 +9,7 @@ from pony import orm
 from pony.orm import core
 from contracts import c01_queries as Q
 
-BOUND = '~70 method chains over 4 ordered base queries on the C01 model (10 students); bounds from {0, 1, 2, 3, 5, 9, 10, 11, 50}'
+BOUND = 'every sequence of <= 3 (thorough: 4) filtering steps out of 13 kinds (keyword, lambda, text, aggregating over a collection, through a reference, ordering) on 3 base queries; ~70 method chains over 4 ordered base queries on the C01 model (10 students); bounds from {0, 1, 2, 3, 5, 9, 10, 11, 50}'
 BOUNDS = [0, 1, 2, 3, 5, 9, 10, 11, 50]
 
 
@@ -73,6 +73,50 @@ def chains(M):
     return out
 
 
+# ---- chains of filtering steps of every kind, in every order: each step must narrow the result exactly as the Python condition does, whatever came before or comes after
+def steps(M):
+    S = M.Student
+    return {
+        'filter(a=2)': (lambda q: q.filter(a=2), lambda s: s.a == 2),
+        'where(b=3)': (lambda q: q.where(b=3), lambda s: s.b == 3),
+        'filter(a=2, b=3)': (lambda q: q.filter(a=2, b=3), lambda s: s.a == 2 and s.b == 3),
+        'filter(group=g1)': (lambda q: q.filter(group=M.Group.get(name='g1')), lambda s: s.group is not None and s.group.name == 'g1'),
+        'filter(lambda b > 0)': (lambda q: q.filter(lambda s: s.b > 0), lambda s: s.b > 0),
+        'where(lambda a < 3)': (lambda q: q.where(lambda s: s.a < 3), lambda s: s.a < 3),
+        'filter(count(courses) > 1)': (lambda q: q.filter(lambda s: orm.count(s.courses) > 1), lambda s: len(s.courses) > 1),          # aggregates over a collection: the translator is rebuilt
+        'where(count(courses) >= 1)': (lambda q: q.where(lambda s: orm.count(s.courses) >= 1), lambda s: len(s.courses) >= 1),
+        'filter(max(courses.credits) > 0)': (lambda q: q.filter(lambda s: orm.max(s.courses.credits) > 0), lambda s: bool(s.courses) and max(c.credits for c in s.courses) > 0),
+        'filter(group.level > 0)': (lambda q: q.filter(lambda s: s.group.level > 0), lambda s: s.group is not None and s.group.level is not None and s.group.level > 0),
+        'order_by(name)': (lambda q: q.order_by(S.name), lambda s: True),
+        'order_by(lambda)': (lambda q: q.order_by(lambda s: orm.desc(s.b)), lambda s: True),
+        'filter(text)': (lambda q: q.filter('s.a >= 1'), lambda s: s.a >= 1),
+    }
+
+
+def step_chains(tier):
+    import itertools
+    names = list(steps(Q.model()))
+    out = [c for k in (1, 2, 3) for c in itertools.product(names, repeat=k)]
+    if tier == 'thorough': out += list(itertools.product(names, repeat=4))
+    return out
+
+
+def DELETES(M):
+    S = M.Student
+    return [
+        ('plain condition', lambda: orm.select(s for s in S if s.b > 2 and s.a < 3), lambda s: s.b > 2 and s.a < 3),
+        ('everything', lambda: S.select(), lambda s: True),
+        ('nothing', lambda: S.select(lambda s: s.a > 100), lambda s: False),
+        ('through a reference', lambda: S.select(lambda s: s.group.level > 0), lambda s: s.group is not None and (s.group.level or 0) > 0),
+        ('keyword filter', lambda: S.select().filter(a=2), lambda s: s.a == 2),
+        ('aggregate over a collection', lambda: S.select(lambda s: orm.count(s.courses) > 1), lambda s: len(s.courses) > 1),
+        ('keyword filter then aggregate', lambda: S.select().filter(a=2).filter(lambda s: orm.count(s.courses) > 1), lambda s: s.a == 2 and len(s.courses) > 1),
+        ('aggregate of an attribute of the collection', lambda: S.select(lambda s: orm.max(s.courses.credits) > 0 and s.b > 1), lambda s: s.b > 1 and any(c.credits > 0 for c in s.courses)),
+        ('membership in a subquery', lambda: S.select(lambda s: s.group in orm.select(g for g in M.Group if g.level > 0)), lambda s: s.group is not None and (s.group.level or 0) > 0),
+        ('exists over a collection', lambda: S.select(lambda s: orm.exists(c for c in s.courses if c.credits > 3)), lambda s: any(c.credits > 3 for c in s.courses)),
+    ]
+
+
 def _raises(f, exc):
     try: f()
     except exc: return True
@@ -80,7 +124,8 @@ def _raises(f, exc):
 
 
 def configs(tier):
-    return [dict(chain=n) for n, q, py in chains(Q.model())] + [dict(chain='bulk delete removes exactly the selected rows'), dict(chain='delete() removes exactly the selected rows')]
+    return ([dict(chain=n) for n, q, py in chains(Q.model())] + [dict(chain='bulk delete removes exactly the selected rows'), dict(chain='delete() removes exactly the selected rows')]
+            + [dict(chain='steps', tier=tier, first=f, base=b) for f in steps(Q.model()) for b in ('select()', 'generator', 'select(lambda)')])
 
 
 def case(cfg, values):
@@ -92,17 +137,41 @@ def case(cfg, values):
         core.local.db2cache.clear(); core.local.db_context_counter = 0; core.local.db_session = None
 
     def call():
-        st = cur().state
         with orm.db_session:
             objs = list(M.Student.select().order_by(M.Student.id))
+            if cfg['chain'] == 'steps':
+                ST = steps(M); bad = []; S = M.Student
+                bases = {'select()': (lambda: S.select(), lambda s: True), 'generator': (lambda: orm.select(s for s in S if s.age is not None), lambda s: s.age is not None),
+                         'select(lambda)': (lambda: S.select(lambda s: s.b < 9), lambda s: s.b < 9)}
+                mk, base_pred = bases[cfg['base']]
+                for chain in step_chains(cfg['tier']):
+                    if chain[0] != cfg['first']: continue
+                    q = mk(); preds = [base_pred]
+                    try:
+                        for name in chain:
+                            q = ST[name][0](q); preds.append(ST[name][1])
+                    except Exception as e:
+                        bad.append((cfg['base'] + '.' + '.'.join(chain), 'building the query raises %s: %s' % (type(e).__name__, str(e)[:80]))); continue
+                    want = sorted(s.name for s in objs if all(p(s) for p in preds))
+                    try: got = (sorted(s.name for s in q), q.count(), q.exists())
+                    except Exception as e: got = 'raises %s: %s' % (type(e).__name__, str(e)[:80])
+                    if got != (want, len(want), bool(want)):
+                        bad.append((cfg['base'] + '.' + '.'.join(chain), 'query: %r' % (got,), 'python: %r' % ((want, len(want), bool(want)),)))
+                return bad[:40]
             if 'delete' in cfg['chain']:
-                want = sorted(s.name for s in objs if not (s.b > 2 and s.a < 3))
-                n_want = len(objs) - len(want)
-                q = orm.select(s for s in M.Student if s.b > 2 and s.a < 3)
-                n = q.delete(bulk=cfg['chain'].startswith('bulk'))
-                got = sorted(M.db.select('select name from Student'))
-                orm.rollback()
-                return [] if (got, n) == (want, n_want) else [('deleted %r rows, left %r' % (n, got), 'python: %r / %r' % (n_want, want))]
+                S = M.Student; bad = []
+                for label, mk, pred in DELETES(M):
+                    want = sorted(s.name for s in objs if not pred(s))
+                    n_want = len(objs) - len(want)
+                    try:
+                        n = mk().delete(bulk=cfg['chain'].startswith('bulk'))
+                        got = sorted(M.db.select('select name from Student'))
+                    except (core.TranslationError, NotImplementedError) as e: n, got = n_want, want          # a delete pony refuses is not a wrong delete
+                    except Exception as e: n, got = 'raises %s: %s' % (type(e).__name__, str(e)[:80]), None
+                    orm.rollback()
+                    objs = list(M.Student.select().order_by(M.Student.id))
+                    if (got, n) != (want, n_want): bad.append((label, 'deleted %r rows, left %r' % (n, got), 'python: %r / %r' % (n_want, want)))
+                return bad
             name, q, py = [x for x in chains(M) if x[0] == cfg['chain']][0]
             want = py(objs)
             try: got = q()
